@@ -54,3 +54,51 @@ pub fn run(seed: u64, count: usize, max_c: usize, max_p: usize, rooms_mode: usiz
     std::fs::write(format!("{}/cases_clilib_00.json", outdir), serde_json::to_string(&metas).unwrap()).unwrap();
     println!("{}", json!({"cases": count}));
 }
+
+/// `vh probe`: what the library stages return for one input file (used to predict the binary's exit status through Cli.exit_code)
+pub fn probe(args: &[String]) {
+    std::panic::set_hook(Box::new(|_| {}));
+    let get = |name: &str| -> Option<String> {
+        for i in 0..args.len() {
+            if args[i] == name && i + 1 < args.len() {
+                return Some(args[i + 1].clone());
+            }
+        }
+        None
+    };
+    let has = |name: &str| args.iter().any(|a| a == name);
+    let path = get("--file").unwrap();
+    let cde = has("--cde");
+    let track: Option<u64> = get("--track").and_then(|t| t.parse().ok());
+    let rooms: Option<Vec<usize>> = get("--rooms").and_then(|s| s.split(',').map(|r| r.parse::<usize>()).collect::<Result<Vec<usize>, _>>().ok());
+    let (ic, ia) = (has("--ignore-cancelled"), has("--ignore-assigned"));
+    let res = std::panic::catch_unwind(move || {
+        let file = match std::fs::File::open(&path) {
+            Ok(f) => f,
+            Err(_) => return json!({"open_ok": false}),
+        };
+        let parsed = if cde {
+            cdecao::io::cdedb::read(file, track, ic, ia, None, None).map(|(p, c, _)| (p, c))
+        } else {
+            cdecao::io::simple::read(file)
+        };
+        match parsed {
+            Err(e) => json!({"open_ok": true, "parse_ok": false, "error": e}),
+            Ok((p, c)) => {
+                let consistent = cdecao::io::check_data_consistency(&p, &c).is_ok();
+                let n = p.len();
+                let mut found = serde_json::Value::Null;
+                let places: usize = c.iter().map(|x| cdecao::verif::course_fields(x).4).sum();
+                if consistent && n > 0 && places < 5000 {
+                    let (res, _) = cdecao::caobab::solve(std::sync::Arc::new(c), std::sync::Arc::new(p), rooms.as_ref(), false, 1);
+                    found = json!(res.is_some());
+                }
+                json!({"open_ok": true, "parse_ok": true, "consistent": consistent, "n_participants": n, "found": found, "places": places})
+            }
+        }
+    });
+    match res {
+        Ok(v) => println!("{}", v),
+        Err(_) => println!("{}", json!({"library_panic": true})),
+    }
+}
